@@ -495,7 +495,7 @@ class C04(Check):
         "event loop": "asyncio BaseEventLoop with virtual clock",
     }
     shrink_lists = ["attempts", "attempts.0.events", "attempts.1.events", "attempts.2.events", "attempts.3.events", "reconnect"]
-    quick_runs = 60000
+    quick_runs = 150000
     thorough_runs = 8000000
     chunk = 500
 
